@@ -18,6 +18,13 @@ Commands, each run on a fresh copy of every state:
  merge    i1..i4 (force) and i1 without force
  update   after the branch advanced to i1..i4, and update back to r0
  switch   to i1..i4
+ switch --store   to i1..i4 and back to m with --store (API; once through the
+          command): the round trip must bring every user content back (or
+          leave it parked in the other branch, from where one more `switch
+          --store` brings it back, possibly merged); to i1
+          when m already holds changes parked from another checkout (refused:
+          ChangesAlreadyStored); to i1 with an OSError / TransportError
+          injected into Branch.store_uncommitted after the shelf was serialised
  pull     i1..i4 into the tree
  uncommit API and command
 
@@ -98,8 +105,9 @@ def build(W):
         world.commit_spec(b, name.encode(), [b"r1"], sp, timestamp=TS + 2)
     m = Branch.open(os.path.join(W, "m"))
     m.create_checkout(os.path.join(W, "t"), lightweight=True)
+    m.create_checkout(os.path.join(W, "t2"), lightweight=True)      # another checkout of m, used to park changes in m
     os.mkdir(os.path.join(W, "tpl"))
-    for d in ("t", "m"):
+    for d in ("t", "m", "t2"):
         shutil.copytree(os.path.join(W, d), os.path.join(W, "tpl", d), symlinks=True)
 
 
@@ -259,6 +267,12 @@ def commands(pre_files, versioned):
         out.append(("update", k, None))
         out.append(("switch", k, None))
         out.append(("pull", k, None))
+    for k in ("i1", "i2", "i3", "i4"):
+        out.append(("switch-store", k, "roundtrip"))
+    out.append(("switch-store", "i1", "cmd-roundtrip"))
+    out.append(("switch-store", "i1", "already-stored"))
+    out.append(("switch-store", "i1", "fault-OSError"))
+    out.append(("switch-store", "i1", "fault-TransportError"))
     out.append(("merge-noforce", "i1", None))
     out.append(("update", "r0", None))
     out.append(("uncommit", "api", None))
@@ -288,6 +302,8 @@ def run_command(W, cmd):
                 open_tree(W).update()
         elif kind == "switch":
             _switch.switch(t.controldir, open_branch(W, arg), quiet=True)
+        elif kind == "switch-store":
+            switch_store(W, t, arg, opt)
         elif kind == "pull":
             t.pull(open_branch(W, arg))
         elif kind == "uncommit":
@@ -300,6 +316,70 @@ def run_command(W, cmd):
                 c.run_argv_aliases(["--force", os.path.join(W, "t")])
         else:
             raise ValueError(kind)
+
+
+def park_changes_in_m(W):
+    """Make branch m hold stored uncommitted changes that were parked from another checkout of it (real code path:
+    WorkingTree.store_uncommitted in its success case)."""
+    from breezy.workingtree import WorkingTree
+    shutil.rmtree(os.path.join(W, "t2"), ignore_errors=True)
+    shutil.copytree(os.path.join(W, "tpl", "t2"), os.path.join(W, "t2"), symlinks=True)
+    with open(os.path.join(W, "t2", "b"), "wb") as f:
+        f.write(b"b1\nparked earlier from another checkout\nb3\n")
+    WorkingTree.open(os.path.join(W, "t2")).store_uncommitted()
+    if not open_branch(W, "m")._transport.has("stored-transform"):
+        raise HarnessError("could not park changes in branch m")
+
+
+def switch_store(W, t, arg, mode):
+    """`switch --store` scenarios.  Errors of the first step do not stop a round trip: the way back is always tried,
+    because that is how a user gets parked changes back."""
+    from breezy import switch as _switch
+    from breezy.bzr import branch as _bzrbranch
+    if mode == "roundtrip":
+        first = None
+        try:
+            _switch.switch(t.controldir, open_branch(W, arg), quiet=True, store_uncommitted=True)
+        except Exception as e:  # noqa
+            first = e
+        _switch.switch(open_tree(W).controldir, open_branch(W, "m"), quiet=True, store_uncommitted=True)
+        if first is not None:
+            raise first
+    elif mode == "cmd-roundtrip":
+        from breezy.builtins import cmd_switch
+        first = None
+        for target in (arg, "m"):
+            c = cmd_switch()
+            c.outf = io.StringIO()
+            try:
+                c.run_argv_aliases(["--store", "-d", os.path.join(W, "t"), os.path.join(W, target)])
+            except Exception as e:  # noqa
+                first = first or e
+        if first is not None:
+            raise first
+    elif mode == "already-stored":
+        park_changes_in_m(W)
+        _switch.switch(t.controldir, open_branch(W, arg), quiet=True, store_uncommitted=True)
+    elif mode.startswith("fault-"):
+        import errno
+
+        from dromedary.errors import TransportError
+        orig = _bzrbranch.BzrBranch.store_uncommitted
+
+        def failing(self, creator):
+            if creator is None:
+                return orig(self, creator)
+            creator.write_shelf(io.BytesIO())      # the shelf is serialised, the write to the branch fails
+            if mode == "fault-OSError":
+                raise OSError(errno.ENOSPC, "No space left on device (injected)")
+            raise TransportError("injected fault writing stored-transform")
+        _bzrbranch.BzrBranch.store_uncommitted = failing
+        try:
+            _switch.switch(t.controldir, open_branch(W, arg), quiet=True, store_uncommitted=True)
+        finally:
+            _bzrbranch.BzrBranch.store_uncommitted = orig
+    else:
+        raise ValueError(mode)
 
 
 def clean_merge(base, this, other):
@@ -345,14 +425,15 @@ def frame(tb):
     return name
 
 
-def judge(ops, cmd, st, pre, post, versioned, mm, acc, exc):
+def judge(ops, cmd, st, pre, post, versioned, mm, acc, exc, parked=None):
     kind, arg, opt = cmd
     det = {"user_ops": list(ops), "command": list(cmd)}
     if exc is not None:
         from breezy import errors
         e = exc
-        if isinstance(e, errors.BzrError):
-            acc.outcomes.add((kind, type(e).__name__))
+        injected = kind == "switch-store" and str(opt).startswith("fault-") and "injected" in str(e)
+        if isinstance(e, errors.BzrError) or injected:
+            acc.outcomes.add((kind, opt if kind == "switch-store" else None, type(e).__name__))
             acc.count("refusals")
         else:
             acc.violation("%s:%s:%s" % (kind, type(e).__name__, frame(e.__traceback__)), dict(det, error=str(e)[:300]))
@@ -378,6 +459,21 @@ def judge(ops, cmd, st, pre, post, versioned, mm, acc, exc):
         n_u += 1
         if c in post_contents:
             continue
+        if kind == "switch-store" and opt.endswith("roundtrip"):
+            # changes the round trip left parked in the other branch are not lost: follow the user's way to them
+            # (`switch --store` to that branch again); there they may have been merged with that branch's changes
+            if parked is not None and "contents" not in parked:
+                parked["contents"] = parked["fetch"]()
+            more = parked["contents"] if parked else set()
+            key = st["tokens"][c] or {"a": "a", "a2": "a", "d/c": "c"}.get(p)   # store re-versions a kept-but-unversioned file
+            cands = {c}
+            if key is not None:
+                cm = clean_merge(BASE[key], c, INC[arg][key])
+                if cm is not None:
+                    cands.add(cm)
+            if cands & (post_contents | more):
+                acc.count("kept_parked_or_merged_by_switch_store")
+                continue
         if kind in MERGE_LIKE:
             key = st["tokens"][c]
             if key is not None:
@@ -391,6 +487,8 @@ def judge(ops, cmd, st, pre, post, versioned, mm, acc, exc):
             sig = "revert:user-content-lost:%s-file:%s" % (where, "backups" if opt else "no-backup")
         elif kind == "remove":
             sig = "remove:user-content-lost:%s-file:%s" % (where, opt)
+        elif kind == "switch-store":
+            sig = "switch-store:user-content-lost:%s-file:%s" % (where, opt)
         else:
             sig = "%s:user-content-lost:%s-file" % (kind.replace("-noforce", ""), where)
         acc.violation(sig, dict(det, lost_path=p, lost_content=c, files_after=sorted(post_files)))
@@ -457,7 +555,17 @@ def _work(chunk):
                     exc = e
                 post = wt.dir_snapshot(root)
                 acc.n += 1
-                n_u = judge(ops, cmd, st, pre, post, versioned, mm, acc, exc)
+                parked = None
+                if cmd[0] == "switch-store" and cmd[2].endswith("roundtrip"):
+                    def fetch(W=W, cmd=cmd, root=root):
+                        from breezy import switch as _switch
+                        try:
+                            _switch.switch(open_tree(W).controldir, open_branch(W, cmd[1]), quiet=True, store_uncommitted=True)
+                        except Exception:  # noqa
+                            pass
+                        return set(files_of(root).values())
+                    parked = {"fetch": fetch}
+                n_u = judge(ops, cmd, st, pre, post, versioned, mm, acc, exc, parked)
                 if n_u:
                     acc.nt((ops, cmd))
                     acc.count("user_contents_checked", n_u)
